@@ -45,7 +45,7 @@ class NdNode(Node):
 
         @st.composite
         def mk(draw):
-            leaf = draw(st.sampled_from(kinds)) if self.dt is None else self.leaf.valid()
+            leaf = draw(st.sampled_from(kinds)) if self.leaf.kind == 'any' else self.leaf.valid()
             nd = draw(st.integers(0, 2))
             shape = [draw(st.integers(0, 3)) for _ in range(nd)]
 
@@ -77,7 +77,9 @@ class NdNode(Node):
                     raise RecursionError
                 return [conv(y, d + 1) for y in x]
             p = self.leaf.ref(x)
-            if self.dt is None and isinstance(x, (bytes, bytearray)):
+            if self.leaf.kind == 'int' and type(x) is int and not (-2**63 <= x < 2**63):
+                p = Unspec('int leaf outside the int64 range (numpy promotes the array to float/object)')
+            if self.leaf.kind == 'any' and isinstance(x, (bytes, bytearray)):
                 p = Unspec('bytes-like leaf of an untyped array (numpy reads it as a buffer)')
             parts.append(p)
             return p.image if isinstance(p, Acc) else None
